@@ -295,3 +295,27 @@ Theorem retry_converges_to_c01_spec : forall extra ch pub cfg w seg S0 L0 h ops 
   (forall c, In c (cids ch (C4.s_store st1)) <-> In c (cids ch S0) \/ In c sg).
 Proof. exact PC.retry_converges_to_c01_spec_l. Qed.
 Print Assumptions retry_converges_to_c01_spec.
+
+(* ---- ties to the Gallina regenerated from the Go source (proofs/GenTie_C04.v) ---- *)
+From Coq Require Import ZArith NArith List Bool Lia String.
+From Lib Require Import Bytes.
+From Model Require Import C04_SyncFailure.
+From Proofs Require Import GenTie_Lib.
+From Gen Require Import Gen_Consts Gen_Funcs_prelude Gen_Funcs_ipnisync.
+Import ListNotations.
+Local Open Scope Z_scope.
+From Proofs Require Import GenTie_C04.
+
+Theorem gen_tie_fetch_error_ladder : forall (sy : syncer) (tried : nat) (done_retry reset : bool) (root : nat),
+  read_after_error
+    (ipnisync_fetch_error_ladder nat 0%nat reset done_retry (Z.of_nat tried) (sy_nopath sy) root (sy_urls sy))
+  = Some (model_after_error sy tried done_retry reset).
+Proof. exact GenTie_C04.tie_fetch_error_ladder. Qed.
+Print Assumptions gen_tie_fetch_error_ladder.
+
+Theorem gen_tie_fetch_status_switch : forall (sy : syncer) (try_nopath : bool) (c : N) (U : Type) (root cur : U),
+  read_after_status
+    (ipnisync_fetch_status_switch U (Z.of_N c) root (sy_nopath sy) (sy_plain sy) cur try_nopath)
+  = Some (model_after_status sy try_nopath c).
+Proof. exact GenTie_C04.tie_fetch_status_switch. Qed.
+Print Assumptions gen_tie_fetch_status_switch.
